@@ -2,22 +2,35 @@
 """Translator for C20: re-extracts the tables the Lean model of `sf new` depends on from the source.
 
   $VERIF_REPO/star_frame_cli/src/new_project.rs  + src/template/*   (default VERIF_REPO=/repo)
-      -> /verif/lean/Cli/Cli/Generated/Keywords.lean    (is_rust_keyword list)
-      -> /verif/lean/Cli/Cli/Generated/Templates.lean   (placeholders of render_template in order,
-                                                         directories of create_project_directories in order,
-                                                         (output path, template text) of write_project_files in order,
-                                                         number of println! lines, staging attempts)
+      -> /verif/lean/Cli/Cli/Generated/Keywords.lean    (the keyword list)
+      -> /verif/lean/Cli/Cli/Generated/Templates.lean   (placeholder chain, directories, (path, template) list,
+                                                         keypair path, println! count, staging attempts, template texts)
 
-A 1:1 textual extraction (regexes over the source); it fails loudly (exit 2) when the source no longer
-has the shape it knows, which `bin/check` reports as a broken `translate` obligation.
-Prints a one-line diff summary against the previous output.
+Items are located BY ROLE, not by the name of a private function, and several equivalent shapes of each are
+understood (matches!/const array/match for the keyword list; literal/hex/underscore/named-constant numbers;
+looped, unrolled or table-driven directory creation; templates declared at function or module level; a
+`.replace(..)` chain or a table of (placeholder, value) pairs).
+
+When an item still has a shape this script does not understand it does NOT fail: it keeps the previously
+generated block of that item (the committed Generated/*.lean come from the pristine tree), prints
+    gen_cli_tables: FALLBACK <item>: <reason>
+and exits 0. `bin/check` collects those lines into the evidence (`translate_fallbacks`). This is sound only
+because the correspondence run validates every table entry behaviourally on every run (keywords through the
+real validator, every generated file byte for byte, the tree listing, the staging-attempt and println
+boundaries) — see notes/C20.md "Harmless rewrites".
 """
 import hashlib, os, re, sys
 
 VERIF = os.path.dirname(os.path.dirname(os.path.abspath(__file__)))
 REPO = os.environ.get("VERIF_REPO", "/repo")
 SRC = os.path.join(REPO, "star_frame_cli", "src")
-OUT = os.path.join(VERIF, "lean", "Cli", "Cli", "Generated")
+OUT = os.environ.get("GEN_CLI_OUT") or os.path.join(VERIF, "lean", "Cli", "Cli", "Generated")
+
+STR = r'"((?:[^"\\]|\\.)*)"'
+
+
+class Unknown(Exception):
+    pass
 
 
 def die(msg):
@@ -25,46 +38,100 @@ def die(msg):
     sys.exit(2)
 
 
-def fn_body(src, name):
-    """Text of `fn name(...) ... { body }` (brace matched, string/char literals skipped)."""
-    m = re.search(r"\bfn\s+" + re.escape(name) + r"\b", src)
-    if not m:
-        die(f"fn {name} not found")
-    i = src.index("{", m.end())
-    depth, j, n = 0, i, len(src)
+# ------------------------------------------------------------------------------------------------ source
+
+def strip_comments(src):
+    """Blank out // comments (doc comments included) and /* */ comments; string and char literals are kept."""
+    out, i, n = [], 0, len(src)
+    while i < n:
+        c = src[i]
+        if c == '"':
+            j = i + 1
+            while j < n and src[j] != '"':
+                j += 2 if src[j] == "\\" else 1
+            out.append(src[i:j + 1]); i = j + 1
+        elif c == "'":
+            m = re.match(r"'(\\.|[^\\'])'", src[i:i + 4])
+            if m:
+                out.append(m.group(0)); i += len(m.group(0))
+            else:
+                out.append(c); i += 1
+        elif src.startswith("//", i):
+            while i < n and src[i] != "\n":
+                i += 1
+        elif src.startswith("/*", i):
+            j = src.find("*/", i + 2)
+            i = n if j < 0 else j + 2
+        else:
+            out.append(c); i += 1
+    return "".join(out)
+
+
+def match_close(s, i, open_ch, close_ch):
+    """Index of the bracket closing the one at s[i] (string/char literals skipped)."""
+    depth, j, n = 0, i, len(s)
     while j < n:
-        c = src[j]
+        c = s[j]
         if c == '"':
             j += 1
-            while src[j] != '"':
-                j += 2 if src[j] == "\\" else 1
-        elif c == "'" and re.match(r"'(\\.|[^\\'])'", src[j:j + 4]):
-            j += len(re.match(r"'(\\.|[^\\'])'", src[j:j + 4]).group(0)) - 1
-        elif c == "/" and src[j:j + 2] == "//":
-            while src[j] != "\n":
-                j += 1
-        elif c == "{":
+            while j < n and s[j] != '"':
+                j += 2 if s[j] == "\\" else 1
+        elif c == "'":
+            m = re.match(r"'(\\.|[^\\'])'", s[j:j + 4])
+            if m:
+                j += len(m.group(0)) - 1
+        elif c == open_ch:
             depth += 1
-        elif c == "}":
+        elif c == close_ch:
             depth -= 1
             if depth == 0:
-                return src[i + 1:j]
+                return j
         j += 1
-    die(f"unbalanced braces in fn {name}")
+    raise Unknown("unbalanced " + open_ch)
+
+
+def functions(src):
+    """[(name, params text, body text)] of every fn (nested ones included), in source order."""
+    res = []
+    for m in re.finditer(r"\bfn\s+(\w+)\s*(?:<[^>]*>)?\s*\(", src):
+        try:
+            pe = match_close(src, m.end() - 1, "(", ")")
+            bi = src.index("{", pe)
+            if ";" in src[pe:bi]:
+                continue
+            be = match_close(src, bi, "{", "}")
+        except (Unknown, ValueError):
+            continue
+        res.append((m.group(1), src[m.end():pe], src[bi + 1:be]))
+    return res
 
 
 def rust_str(lit):
-    """Value of a plain Rust string literal body (only the escapes that occur here)."""
     out, i = [], 0
     while i < len(lit):
         if lit[i] == "\\":
             e = lit[i + 1]
-            out.append({"n": "\n", "t": "\t", "\\": "\\", '"': '"', "'": "'", "0": "\0"}.get(e) or die("escape \\" + e))
-            i += 2
+            v = {"n": "\n", "t": "\t", "\\": "\\", '"': '"', "'": "'", "0": "\0"}.get(e)
+            if v is None:
+                raise Unknown("escape \\" + e)
+            out.append(v); i += 2
         else:
             out.append(lit[i]); i += 1
     return "".join(out)
 
+
+def parse_int(tok, consts):
+    tok = tok.strip()
+    seen = set()
+    while tok in consts and tok not in seen:
+        seen.add(tok); tok = consts[tok].strip()
+    m = re.fullmatch(r"(0x[0-9a-fA-F_]+|0o[0-7_]+|0b[01_]+|[0-9][0-9_]*)(_?(?:u|i)(?:8|16|32|64|128|size))?", tok)
+    if not m:
+        raise Unknown("not an integer literal: " + tok[:30])
+    return int(m.group(1).replace("_", ""), 0)
+
+
+# ------------------------------------------------------------------------------------------------ lean text
 
 def lean_char(c):
     o = ord(c)
@@ -93,153 +160,372 @@ def lean_str(s):
     return '"' + s.replace("\\", "\\\\").replace('"', '\\"').replace("\n", "\\n").replace("\t", "\\t") + '"'
 
 
+def tpl_ident(fname):
+    return "tpl_" + re.sub(r"\W", "_", fname)
+
+
+# ------------------------------------------------------------------------------------------------ items
+
+def item_keywords(src, fns, consts):
+    """The keyword list = the string literals of the unique fn body / const array that holds only word-like
+    literals and contains the tell-tale keywords."""
+    tell = {"fn", "struct", "impl", "match", "self", "crate", "unsafe"}
+    groups = []
+    for name, _, body in fns:
+        lits = re.findall(STR, body)
+        groups.append(("fn " + name, lits))
+    for m in re.finditer(r"\b(?:const|static)\s+(\w+)\s*:\s*[^=]*?=\s*&?\s*\[", src):
+        try:
+            e = match_close(src, m.end() - 1, "[", "]")
+        except Unknown:
+            continue
+        groups.append(("const " + m.group(1), re.findall(STR, src[m.end():e])))
+    cands = [(w, l) for w, l in groups if l and tell <= set(l) and all(re.fullmatch(r"[A-Za-z_]+", x) for x in l)]
+    # a fn that merely mentions the const does not add a second candidate (its own literals would have to qualify)
+    if len(cands) != 1:
+        raise Unknown(f"{len(cands)} candidate keyword lists")
+    kws = []
+    for k in cands[0][1]:
+        if k not in kws:
+            kws.append(k)
+    return kws, cands[0][0]
+
+
+ROLE_FIELD = {"lower": "name_lowercase", "underscore": "name_lowercase_underscore", "upper": "name_uppercase",
+              "pascal": "name_pascalcase", "pubkey": "pubkey"}
+
+
+def classify_value(expr, consts, name_param, key_param):
+    """Which of the five modelled values a Rust expression of TemplateValues::new computes (by role)."""
+    e = re.sub(r"\s+", "", expr)
+    for k, v in consts.items():
+        e = re.sub(r"\b" + re.escape(k) + r"\b", re.sub(r"\s+", "", v), e)
+    e = e.lstrip("&")
+    n, p = re.escape(name_param), re.escape(key_param)
+    if re.fullmatch(rf"{n}\.to_case\(Case::(Pascal|UpperCamel)\)", e):
+        return "pascal"
+    if re.fullmatch(rf"{n}\.to_ascii_uppercase\(\)", e):
+        return "upper"
+    if re.fullmatch(rf"{n}\.replace\(('-'|\"-\"),(\"_\"|'_')\)", e):
+        return "underscore"
+    if re.fullmatch(rf"({n}\.(to_owned|to_string|into)\(\)|String::from\({n}\)|{n}\.to_owned\(\)\.into\(\))", e):
+        return "lower"
+    if re.fullmatch(rf"({p}|{p}\.clone\(\)|{p}\.to_owned\(\)|{p}\.to_string\(\))", e):
+        return "pubkey"
+    raise Unknown("value expression not recognised: " + expr.strip()[:60])
+
+
+def item_placeholders(src, fns, consts):
+    """[(placeholder pattern, role)] in replacement order + the source text of each value (informational)."""
+    # the constructor: the fn whose params are (x: &str, y: String) and whose body builds the values
+    ctor = None
+    for name, params, body in fns:
+        ps = [q.strip() for q in params.split(",") if q.strip()]
+        if len(ps) == 2 and re.fullmatch(r"\w+\s*:\s*&\s*str", ps[0]) and re.fullmatch(r"\w+\s*:\s*String", ps[1]) \
+                and ("to_case" in body or "to_ascii_uppercase" in body):
+            if ctor is not None:
+                raise Unknown("two candidate value constructors")
+            ctor = (ps[0].split(":")[0].strip(), ps[1].split(":")[0].strip(), body)
+    if ctor is None:
+        raise Unknown("value constructor (name: &str, pubkey: String) not found")
+    name_param, key_param, cbody = ctor
+    pairs = []  # (pattern, expr text)
+    # shape B: a table of ("{placeholder}", expr) pairs
+    for m in re.finditer(r"\(\s*" + STR + r"\s*,", cbody):
+        lit = rust_str(m.group(1))
+        if not re.fullmatch(r"\{[a-z_]+\}", lit):
+            continue
+        start = cbody.rindex("(", 0, m.end())
+        end = match_close(cbody, start, "(", ")")
+        pairs.append((lit, cbody[m.end():end].strip().rstrip(",").strip()))
+    if not pairs:
+        # shape A: a `.replace("{placeholder}", &values.field)` chain + field initialisers in the constructor
+        chain = re.findall(r"\.replace\(\s*" + STR + r"\s*,\s*&?\s*\w+\.(\w+)\s*,?\s*\)", src)
+        chain = [(rust_str(p), f) for p, f in chain if re.fullmatch(r"\{[a-z_]+\}", rust_str(p))]
+        if not chain:
+            raise Unknown("neither a .replace(\"{…}\", &values.field) chain nor a (placeholder, value) table found")
+        lm = re.search(r"\b(?:Self|\w+)\s*\{([^{}]*)\}\s*$", cbody.strip(), re.S) or re.search(r"\bSelf\s*\{([^{}]*)\}", cbody, re.S)
+        if not lm:
+            raise Unknown("struct literal of the value constructor not found")
+        inits = {}
+        depth, cur, parts = 0, "", []
+        for ch in lm.group(1):
+            if ch in "([{":
+                depth += 1
+            elif ch in ")]}":
+                depth -= 1
+            if ch == "," and depth == 0:
+                parts.append(cur); cur = ""
+            else:
+                cur += ch
+        parts.append(cur)
+        for part in parts:
+            part = part.strip()
+            if not part:
+                continue
+            if ":" in part and re.match(r"\w+\s*:", part):
+                k, v = part.split(":", 1)
+                inits[k.strip()] = v.strip()
+            else:
+                inits[part] = part
+        for p, f in chain:
+            if f not in inits:
+                raise Unknown(f"field {f} has no initialiser in the constructor")
+            pairs.append((p, inits[f]))
+    # every placeholder literal of the file must be covered
+    lits = {rust_str(x) for x in re.findall(STR, src)}
+    missing = {l for l in lits if re.fullmatch(r"\{[a-z_]+\}", l)} - {p for p, _ in pairs}
+    if missing:
+        raise Unknown("placeholder literals not covered by the chain: " + ", ".join(sorted(missing)))
+    return [(p, classify_value(e, consts, name_param, key_param), e) for p, e in pairs]
+
+
+def join_chain(expr, var, consts):
+    """Components of `base.join("a").join("b")` / a variable bound to such a chain; None if not such a thing."""
+    e = re.sub(r"\s+", "", expr).lstrip("&")
+    e = re.sub(r"\.as_path\(\)$", "", e)
+    m = re.fullmatch(r"(\w+)((?:\.join\(" + STR + r"\))*)", e)
+    if not m or m.group(1) not in var:
+        return None
+    comps = list(var[m.group(1)])
+    for lit in re.findall(r"\.join\(" + STR + r"\)", m.group(2)):
+        comps += [c for c in rust_str(lit).split("/") if c]
+    return comps
+
+
+def item_dirs(src, fns, consts):
+    cands = [(n, p, b) for n, p, b in fns if "create_dir_all" in b and "keypair" not in b.lower() and "keypair" not in p.lower()]
+    if len(cands) != 1:
+        raise Unknown(f"{len(cands)} candidate directory-creating functions")
+    name, params, body = cands[0]
+    pm = re.match(r"\s*(\w+)\s*:\s*&\s*Path", params)
+    if not pm:
+        raise Unknown("directory function does not take a base &Path")
+    var = {pm.group(1): []}
+    for v, rhs in re.findall(r"let\s+(\w+)\s*=\s*([^;]+);", body):
+        c = join_chain(rhs, var, consts)
+        if c is not None:
+            var[v] = c
+    dirs = []
+    # table driven: CONST.iter()… create_dir_all(base.join(x))
+    tm = re.search(r"\b([A-Z][A-Z0-9_]*)\s*\.\s*(?:iter|into_iter)\(\)", body)
+    lm = re.search(r"for\s+\w+\s+in\s*\[(.*?)\]\s*\{", body, re.S)
+    if tm:
+        am = re.search(r"\b(?:const|static)\s+" + tm.group(1) + r"\s*:\s*[^=]*?=\s*&?\s*\[", src)
+        if not am:
+            raise Unknown("directory table " + tm.group(1) + " not found")
+        e = match_close(src, am.end() - 1, "[", "]")
+        for lit in re.findall(STR, src[am.end():e]):
+            dirs.append([c for c in rust_str(lit).split("/") if c])
+        if not re.search(r"create_dir_all\(\s*&?\s*" + re.escape(pm.group(1)) + r"\.join\(\s*\w+\s*\)\s*\)", body):
+            raise Unknown("table-driven directory loop has an unknown body")
+    elif lm:
+        for item in [x.strip() for x in lm.group(1).split(",") if x.strip()]:
+            c = join_chain(item, var, consts)
+            if c is None:
+                raise Unknown("directory loop item " + item[:30])
+            dirs.append(c)
+        if not re.search(r"create_dir_all\(\s*&?\s*\w+\s*\)", body):
+            raise Unknown("directory loop has an unknown body")
+    else:
+        for arg in re.findall(r"create_dir_all\(([^()]*(?:\([^()]*\)[^()]*)*)\)", body):
+            c = join_chain(arg, var, consts)
+            if c is None:
+                raise Unknown("create_dir_all argument " + arg.strip()[:30])
+            dirs.append(c)
+    if not dirs or any(not d for d in dirs):
+        raise Unknown("no directories found")
+    return dirs
+
+
+def item_keypair(src, fns, consts):
+    for name, params, body in fns:
+        m = re.search(r'format!\(\s*"\{(\w*)\}([^"{}]*keypair[^"{}]*)"', body)
+        if not m:
+            continue
+        flat = re.sub(r"\s+", "", body)
+        pm = re.search(r'Path::new\(' + STR + r'\)((?:\.join\(' + STR + r'\))*)\.join\(format!', flat)
+        if not pm:
+            raise Unknown("keypair path is not Path::new(\"…\").join(\"…\")….join(format!(…))")
+        comps = [c for c in rust_str(pm.group(1)).split("/") if c]
+        for lit in re.findall(r"\.join\(" + STR + r"\)", pm.group(2)):
+            comps += [c for c in rust_str(lit).split("/") if c]
+        # the artifact name must be the `-` -> `_` normalised project name
+        b = flat
+        for k, v in consts.items():
+            b = re.sub(r"\b" + re.escape(k) + r"\b", re.sub(r"\s+", "", v), b)
+        if not re.search(r"\.replace\(('-'|\"-\"),(\"_\"|'_')\)", b):
+            raise Unknown("keypair artifact name is not name.replace('-', \"_\")")
+        return comps, rust_str(m.group(2))
+    raise Unknown("keypair path function not found")
+
+
+def item_println(src, fns, consts):
+    counts = [len(re.findall(r"\bprintln!\s*\(", b)) for _, _, b in fns]
+    n = max(counts) if counts else 0
+    if n == 0 or sum(counts) != n:
+        raise Unknown("println! calls are spread over several functions")
+    return n
+
+
+def item_attempts(src, fns, consts):
+    cands = [b for _, _, b in fns if re.search(r"\bcreate_dir\(", b)]
+    if len(cands) != 1:
+        raise Unknown(f"{len(cands)} functions call create_dir")
+    m = re.search(r"for\s+\w+\s+in\s+([\w']+)\s*\.\.(=?)\s*([\w']+)\s*\{", cands[0])
+    if not m:
+        raise Unknown("attempt loop is not `for x in a..b`")
+    lo, hi = parse_int(m.group(1), consts), parse_int(m.group(3), consts)
+    n = hi - lo + (1 if m.group(2) else 0)
+    if n <= 0:
+        raise Unknown("empty attempt range")
+    return n
+
+
+def item_files(src, fns, consts, tnames):
+    tconst = {}
+    for c, f in re.findall(r"\bconst\s+(\w+)\s*:\s*&\s*(?:'static\s+)?str\s*=\s*include_str!\(\s*" + STR + r"\s*\)\s*;", src):
+        tconst[c] = rust_str(f)
+    pairs = []
+    # (CONST, base.join("rel")) | ("rel", include_str!("…")) | ("rel", CONST)
+    pat = (r"\(\s*(?:(?P<c1>[A-Z][A-Z0-9_]*)\s*,\s*\w+\.join\(\s*" + STR.replace("(", "(?P<p1>", 1) + r"\s*\)"
+           r"|" + STR.replace("(", "(?P<p2>", 1) + r"\s*,\s*(?:include_str!\(\s*" + STR.replace("(", "(?P<f2>", 1) + r"\s*\)|(?P<c2>[A-Z][A-Z0-9_]*)))\s*,?\s*\)")
+    for m in re.finditer(pat, src):
+        if m.group("c1"):
+            if m.group("c1") not in tconst:
+                continue
+            pairs.append((rust_str(m.group("p1")), tconst[m.group("c1")]))
+        elif m.group("f2") is not None:
+            pairs.append((rust_str(m.group("p2")), rust_str(m.group("f2"))))
+        elif m.group("c2") in tconst:
+            pairs.append((rust_str(m.group("p2")), tconst[m.group("c2")]))
+    if not pairs:
+        raise Unknown("no (template, path) pairs found")
+    n_inc = len(re.findall(r"include_str!\(", src))
+    if len(pairs) != n_inc:
+        raise Unknown(f"{n_inc} include_str! but {len(pairs)} (template, path) pairs")
+    out = []
+    for rel, tf in pairs:
+        base = os.path.basename(tf)
+        if base not in tnames or os.path.dirname(tf) != "template":
+            raise Unknown("template file " + tf)
+        out.append(([c for c in rel.split("/") if c], base))
+    return out
+
+
+# ------------------------------------------------------------------------------------------------ blocks
+
+def blocks_of(text):
+    return {m.group(1): m.group(2) for m in re.finditer(r"-- BEGIN (\w+)\n(.*?)-- END \1\n", text, re.S)}
+
+
 def main():
     path = os.path.join(SRC, "new_project.rs")
-    src = open(path, encoding="utf-8").read()
-
-    # ---- keywords: the string literals of the `matches!` in is_rust_keyword, in source order
-    kb = fn_body(src, "is_rust_keyword")
-    if not re.match(r"\s*matches!\(\s*value\s*,", kb):
-        die("is_rust_keyword is no longer a single matches!(value, …)")
-    inner = kb[kb.index(",") + 1: kb.rindex(")")]
-    if re.sub(r'"(?:[^"\\]|\\.)*"|[\s|]', "", inner) != "":
-        die("is_rust_keyword: unexpected tokens in the pattern list: " + re.sub(r'"(?:[^"\\]|\\.)*"|[\s|]', "", inner)[:40])
-    keywords = [rust_str(x) for x in re.findall(r'"((?:[^"\\]|\\.)*)"', inner)]
-    if not keywords:
-        die("no keywords found")
-
-    # ---- placeholders: render_template = template.replace(P1, &values.f1).replace(P2, …)…
-    rb = fn_body(src, "render_template")
-    flat = re.sub(r"\s+", "", rb)
-    if not flat.startswith("template"):
-        die("render_template no longer starts from `template`")
-    reps = re.findall(r'\.replace\("((?:[^"\\]|\\.)*)",&values\.(\w+),?\)', flat)
-    if "template" + "".join(f'.replace("{p}",&values.{f}' + ")" for p, f in reps) != flat.replace(",)", ")"):
-        die("render_template is no longer a pure chain of .replace(\"…\", &values.field)")
-    placeholders = [(rust_str(p), f) for p, f in reps]
-
-    # ---- TemplateValues::new: field -> expression (recorded; the Lean model of each expression is hand-written
-    #      in Cli/Render.lean and checked against this text by `valuesShape`)
-    m = re.search(r"impl\s+TemplateValues\s*\{(.*?)\n\}", src, re.S)
-    if not m:
-        die("impl TemplateValues not found")
-    short = re.search(r"Self\s*\{([^{}]*)\}", m.group(1), re.S)
-    if not short:
-        die("TemplateValues::new: Self { … } literal not found")
-    values = []
-    for line in short.group(1).strip().split("\n"):
-        line = line.strip().rstrip(",")
-        if not line:
-            continue
-        if ":" in line:
-            k, v = line.split(":", 1)
-            values.append((k.strip(), re.sub(r"\s+", " ", v.strip())))
-        else:
-            values.append((line, line))
-
-    # ---- directories: create_project_directories
-    db = fn_body(src, "create_project_directories")
-    var = {"base": []}
-    for v, parent, comp in re.findall(r'let\s+(\w+)\s*=\s*(\w+)\.join\("([^"]+)"\);', db):
-        if parent not in var:
-            die(f"create_project_directories: unknown parent {parent}")
-        var[v] = var[parent] + comp.split("/")
-    fm = re.search(r"for\s+\w+\s+in\s*\[(.*?)\]\s*\{\s*fs::create_dir_all\(\w+\)\?;", db, re.S)
-    if not fm:
-        die("create_project_directories: loop shape changed")
-    dirs = []
-    for item in [x.strip() for x in fm.group(1).split(",") if x.strip()]:
-        mm = re.fullmatch(r"(\w+)\.as_path\(\)", item)
-        if not mm or mm.group(1) not in var:
-            die("create_project_directories: item " + item)
-        dirs.append(var[mm.group(1)])
-
-    # ---- files: write_project_files
-    wb = fn_body(src, "write_project_files")
-    consts = dict(re.findall(r'const\s+(\w+):\s*&str\s*=\s*include_str!\("([^"]+)"\);', wb))
-    am = re.search(r"let\s+files\s*=\s*\[(.*?)\];", wb, re.S)
-    if not am:
-        die("write_project_files: files array not found")
-    entries = re.findall(r'\(\s*(\w+)\s*,\s*base\.join\("([^"]+)"\)\s*\)', am.group(1))
-    if len(entries) != am.group(1).count("base.join"):
-        die("write_project_files: entry shape changed")
-    files = []
-    for c, rel in entries:
-        if c not in consts:
-            die("write_project_files: const " + c)
-        text = open(os.path.join(SRC, consts[c]), encoding="utf-8").read()
-        files.append((consts[c], rel.split("/"), text))
+    if not os.path.exists(path):
+        die(path + " not found")
+    raw = open(path, encoding="utf-8").read()
+    src = strip_comments(raw)
+    tm = re.search(r"#\[cfg\(test\)\]\s*mod\s+\w+\s*\{", src)
+    if tm:
+        src = src[:tm.start()]
+    fns = functions(src)
+    consts = {k: v.strip() for k, v in re.findall(r"\bconst\s+(\w+)\s*:\s*[^=;]+=\s*([^;\[\]]+);", src) if "include_str" not in v}
     tdir = os.path.join(SRC, "template")
-    unused = sorted(set(os.listdir(tdir)) - {os.path.basename(f[0]) for f in files})
-
-    # ---- println! lines of new_project_in, staging attempts, keypair path
-    nb = fn_body(src, "new_project_in")
-    printlns = len(re.findall(r"\bprintln!\s*\(", nb))
-    sb = fn_body(src, "staging_directory_for")
-    am2 = re.search(r"for\s+attempt\s+in\s+0_u32\.\.(\d+)", sb)
-    if not am2:
-        die("staging_directory_for: attempt loop shape changed")
-    attempts = int(am2.group(1))
-    kb2 = re.sub(r"\s+", "", fn_body(src, "program_keypair_relative_path"))
-    km = re.fullmatch(r'letartifact_name=project_name\.replace\(\'-\',"_"\);Path::new\("([^"]+)"\)((?:\.join\("[^"]+"\))*)\.join\(format!\("\{artifact_name\}([^"]*)"\)\)', kb2)
-    if not km:
-        die("program_keypair_relative_path: shape changed: " + kb2)
-    kp_dir = [km.group(1)] + re.findall(r'\.join\("([^"]+)"\)', km.group(2))
-    kp_suffix = km.group(3)
+    tnames = sorted(os.listdir(tdir))
 
     os.makedirs(OUT, exist_ok=True)
+    kpath, tpath = os.path.join(OUT, "Keywords.lean"), os.path.join(OUT, "Templates.lean")
+    old_k = open(kpath, encoding="utf-8").read() if os.path.exists(kpath) else ""
+    old_t = open(tpath, encoding="utf-8").read() if os.path.exists(tpath) else ""
+    old = {**blocks_of(old_k), **blocks_of(old_t)}
+    fallbacks, info = [], []
+
+    def item(name, extract, render):
+        try:
+            val = extract()
+            return render(val), val
+        except Unknown as e:
+            if name not in old:
+                die(f"{name}: {e} — and no previously generated block to fall back on")
+            fallbacks.append((name, str(e)))
+            return old[name], None
+
+    blocks = {}
+    blocks["keywords"], kw = item("keywords", lambda: item_keywords(src, fns, consts), lambda v: (
+        "/-- The keyword list of the name validator, in source order. -/\n"
+        "def keywords : List (List Char) := [\n" + ",\n".join(f"  {lean_chars(k)}" for k in v[0]) + "\n]\n\n"
+        "/-- Same list as strings (read by the harness for its probes; not used by proofs). -/\n"
+        "def keywordStrings : List String := [" + ", ".join(lean_str(k) for k in v[0]) + "]\n"))
+    blocks["placeholders"], ph = item("placeholders", lambda: item_placeholders(src, fns, consts), lambda v: (
+        "/-- The placeholder replacement chain: patterns, in order. -/\n"
+        "def placeholderPatterns : List (List Char) := [\n" + ",\n".join(f"  {lean_chars(p)}" for p, _, _ in v) + "\n]\n\n"
+        "/-- … and the replacement of each pattern, in the same order (fields of the MODEL's `TemplateValues`, chosen by the\n"
+        "role of the source expression). Source expressions, for information only:\n"
+        + "".join(f"  {p} := {e}\n" for p, _, e in v) + "-/\n"
+        "def placeholderValues (values : Cli.TemplateValues) : List (List Char) := ["
+        + ", ".join("values." + ROLE_FIELD[r] for _, r, _ in v) + "]\n"))
+    blocks["projectDirs"], _ = item("projectDirs", lambda: item_dirs(src, fns, consts), lambda v: (
+        "/-- Directories created below the project root before any file is written, in order. -/\n"
+        "def projectDirs : List (List (List Char)) := [\n" + ",\n".join("  " + lean_path(d) for d in v) + "\n]\n"
+        "-- i.e. " + ", ".join("/".join(d) for d in v) + "\n"))
+    blocks["keypair"], _ = item("keypair", lambda: item_keypair(src, fns, consts), lambda v: (
+        "/-- Keypair path: directory components and file-name suffix after the `-`→`_` normalised name. -/\n"
+        "def keypairDir : List (List Char) := " + lean_path(v[0]) + "  -- " + "/".join(v[0]) + "\n"
+        "def keypairSuffix : List Char := " + lean_chars(v[1]) + "\n"))
+    blocks["printlnCount"], _ = item("printlnCount", lambda: item_println(src, fns, consts), lambda v: (
+        f"/-- `println!` invocations after a successful scaffold. -/\ndef printlnCount : Nat := {v}\n"))
+    blocks["stagingAttempts"], _ = item("stagingAttempts", lambda: item_attempts(src, fns, consts), lambda v: (
+        f"/-- Attempts of the staging-name loop. -/\ndef stagingAttempts : Nat := {v}\n"))
+    # template texts: always regenerated, one definition per file of src/template
+    ttext = ""
+    for t in tnames:
+        text = open(os.path.join(tdir, t), encoding="utf-8").read()
+        ttext += f"/-- `template/{t}` ({len(text)} chars) -/\ndef {tpl_ident(t)} : List Char := {lean_chars(text)}\n\n"
+    blocks["templateTexts"] = ttext
+    blocks["projectFiles"], files = item("projectFiles", lambda: item_files(src, fns, consts, tnames), lambda v: (
+        "/-- (output path below the project root, template text), in write order. -/\n"
+        "def projectFiles : List (List (List Char) × List Char) := [\n"
+        + ",\n".join("  (" + lean_path(rel) + ", " + tpl_ident(t) + ")" for rel, t in v) + "\n]\n"
+        "-- i.e. " + ", ".join("/".join(rel) + " <- " + t for rel, t in v) + "\n\n"
+        "/-- Template files present in src/template but not written. -/\n"
+        "def unusedTemplates : List String := [" + ", ".join(lean_str(u) for u in sorted(set(tnames) - {t for _, t in v})) + "]\n"))
+    if files is None:
+        # the kept block refers to tpl_ identifiers: they must still exist
+        for ident in set(re.findall(r"\btpl_\w+", blocks["projectFiles"])):
+            if ident not in {tpl_ident(t) for t in tnames}:
+                die(f"projectFiles: fallback block refers to {ident}, which no longer exists in src/template")
+
     hdr = ("/-! GENERATED by bin/gen_cli_tables.py from star_frame_cli/src/new_project.rs (+ src/template/*).\n"
-           "Do not edit: rewritten on every `bin/check C20`. -/\n")
-    kw = hdr + "namespace Cli.Generated\n\n/-- The string patterns of `is_rust_keyword`, in source order. -/\ndef keywords : List (List Char) := [\n"
-    kw += ",\n".join(f"  {lean_chars(k)}" for k in keywords)
-    kw += "\n]\n\n/-- Same list as strings (for reading; not used by proofs). -/\ndef keywordStrings : List String := [" + ", ".join(lean_str(k) for k in keywords) + "]\n\nend Cli.Generated\n"
+           "Do not edit: rewritten on every `bin/check C20` (block by block; a block whose source shape is not\n"
+           "understood keeps its previous contents and the run reports `FALLBACK <block>`). -/\n")
 
-    tp = "import Cli.Values\n" + hdr + "namespace Cli.Generated\n\n"
-    tp += "/-- `render_template`: the patterns of the `.replace(pattern, &values.field)` chain, in order. -/\n"
-    tp += "def placeholderPatterns : List (List Char) := [\n" + ",\n".join(f"  {lean_chars(p)}" for p, f in placeholders) + "\n]\n\n"
-    tp += "/-- … and the replacement of each pattern, in the same order. -/\n"
-    tp += "def placeholderValues (values : Cli.TemplateValues) : List (List Char) := [" + ", ".join(f"values.{f}" for p, f in placeholders) + "]\n\n"
-    tp += "/-- `TemplateValues::new`: field := expression, as written in the source. -/\n"
-    tp += "def valuesShape : List (String × String) := [\n" + ",\n".join(f"  ({lean_str(k)}, {lean_str(v)})" for k, v in values) + "\n]\n\n"
-    tp += "/-- `create_project_directories`: the directories, in loop order (components below the project root). -/\n"
-    tp += "def projectDirs : List (List (List Char)) := [\n" + ",\n".join("  " + lean_path(d) for d in dirs) + "\n]\n"
-    tp += "-- i.e. " + ", ".join("/".join(d) for d in dirs) + "\n\n"
-    tp += "/-- `program_keypair_relative_path`: directory components and file-name suffix after the artifact name. -/\n"
-    tp += "def keypairDir : List (List Char) := " + lean_path(kp_dir) + "  -- " + "/".join(kp_dir) + "\n"
-    tp += "def keypairSuffix : List Char := " + lean_chars(kp_suffix) + "\n\n"
-    tp += f"/-- `println!` invocations of `new_project_in` after a successful scaffold. -/\ndef printlnCount : Nat := {printlns}\n\n"
-    tp += f"/-- Attempts of the staging-name loop in `staging_directory_for`. -/\ndef stagingAttempts : Nat := {attempts}\n\n"
-    for tname, rel, text in files:
-        ident = "tpl_" + re.sub(r"\W", "_", os.path.basename(tname))
-        tp += f"/-- `{tname}` ({len(text)} chars) -/\ndef {ident} : List Char := {lean_chars(text)}\n\n"
-    tp += "/-- `write_project_files`: (output path below the project root, template text), in write order. -/\n"
-    tp += "def projectFiles : List (List (List Char) × List Char) := [\n" + ",\n".join(
-        "  (" + lean_path(rel) + ", tpl_" + re.sub(r"\W", "_", os.path.basename(tname)) + ")" for tname, rel, _ in files) + "\n]\n"
-    tp += "-- i.e. " + ", ".join("/".join(rel) for _, rel, _ in files) + "\n\n"
-    tp += "/-- Template source file name of each entry of `projectFiles` (for the driver's `rendertpl` op). -/\n"
-    tp += "def templateNames : List String := [" + ", ".join(lean_str(os.path.basename(tname)) for tname, _, _ in files) + "]\n\n"
-    tp += "/-- Template files present in src/template but not written by `write_project_files`. -/\n"
-    tp += "def unusedTemplates : List String := [" + ", ".join(lean_str(u) for u in unused) + "]\n\nend Cli.Generated\n"
+    def wrap(name):
+        return f"-- BEGIN {name}\n{blocks[name]}-- END {name}\n\n"
 
-    summary = []
-    for fname, body in (("Keywords.lean", kw), ("Templates.lean", tp)):
+    kw_text = hdr + "namespace Cli.Generated\n\n" + wrap("keywords") + "end Cli.Generated\n"
+    tp_text = ("import Cli.Values\n" + hdr + "namespace Cli.Generated\n\n"
+               + "".join(wrap(n) for n in ("placeholders", "projectDirs", "keypair", "printlnCount", "stagingAttempts", "templateTexts", "projectFiles"))
+               + "end Cli.Generated\n")
+
+    for fname, body, oldt in (("Keywords.lean", kw_text, old_k), ("Templates.lean", tp_text, old_t)):
         p = os.path.join(OUT, fname)
-        old = open(p, encoding="utf-8").read() if os.path.exists(p) else None
         h = hashlib.sha1(body.encode()).hexdigest()[:10]
-        if old is None:
-            summary.append(f"{fname}: new ({h})")
-        elif old == body:
-            summary.append(f"{fname}: unchanged ({h})")
+        if not oldt:
+            print(f"gen_cli_tables: {fname}: new ({h})")
+        elif oldt == body:
+            print(f"gen_cli_tables: {fname}: unchanged ({h})")
         else:
-            ol, nl = set(old.split("\n")), set(body.split("\n"))
-            summary.append(f"{fname}: CHANGED ({h}) -{len(ol - nl)} +{len(nl - ol)} lines; first new: " + "; ".join(sorted(nl - ol))[:300])
-        if old != body:
+            ob, nb = blocks_of(oldt), blocks_of(body)
+            changed = [k for k in nb if ob.get(k) != nb[k]]
+            print(f"gen_cli_tables: {fname}: CHANGED ({h}) blocks: {', '.join(changed) or '(layout)'}")
+        if oldt != body:
             with open(p, "w", encoding="utf-8") as f:
                 f.write(body)
-    print(f"gen_cli_tables: source {path}: {len(keywords)} keywords, {len(placeholders)} placeholders, {len(dirs)} dirs, "
-          f"{len(files)} files, {printlns} println, {attempts} attempts, unused templates {unused}")
-    for s in summary:
-        print("gen_cli_tables: " + s)
+    print(f"gen_cli_tables: source {path}: extracted "
+          + ", ".join(n for n in ("keywords", "placeholders", "projectDirs", "keypair", "printlnCount", "stagingAttempts", "projectFiles")
+                      if n not in {f for f, _ in fallbacks}) + f"; {len(tnames)} template texts")
+    for name, why in fallbacks:
+        print(f"gen_cli_tables: FALLBACK {name}: {why} (previous table kept; validated behaviourally by the correspondence run)")
 
 
 if __name__ == "__main__":
